@@ -57,6 +57,10 @@ func DrawTrivia(t *rapid.T, st TriviaStyle) string {
 			for strings.Contains(inner, "*/") {
 				inner = strings.ReplaceAll(inner, "*/", "* /")
 			}
+			if Pct(t, 15, "starrun") {
+				// the closing */ preceded by more stars: /***/, /* x **/, a ****** banner ******/
+				inner = strings.TrimRight(inner, " ") + strings.Repeat("*", 1+Uniform(t, 4, "nstars"))
+			}
 			sb.WriteString("/*" + inner + "*/")
 			sb.WriteString(rapid.SampledFrom([]string{" ", "\n", "", "\n\n"}).Draw(t, "post"))
 		}
